@@ -36,6 +36,9 @@ type c16Prog struct {
 	Feat   map[string]string `json:"features"`
 	Mode   string            `json:"mode"`                  // outside | inside
 	KillAt int               `json:"kill_idle_before_step"` // -1: never; else the pooled connections are closed by the server before this step
+	// 0: never; n: the server executes the n-th business DML of the program and then loses the connection without
+	// replying (the driver reports "invalid connection": sent, outcome unknown, not to be repeated)
+	LoseAfterDML int `json:"connection_lost_after_dml,omitempty"`
 }
 
 func runC16(r *vc.Run, replay string) {
@@ -423,6 +426,24 @@ func c16Run(env *c16Env, p *c16Prog, k string) *c16RunResult {
 	if p.KillAt > 0 && p.KillAt < len(p.Steps) {
 		parts = [][]gtxStep{p.Steps[:p.KillAt], p.Steps[p.KillAt:]}
 	}
+	if p.LoseAfterDML > 0 {
+		var imu sync.Mutex
+		seen := 0
+		db.E.Inject = func(j *mm.JournalEntry) *mm.Action {
+			// the target table is not known yet when the command arrives: kind and text only
+			if (j.Kind != "INSERT" && j.Kind != "UPDATE" && j.Kind != "DELETE") || strings.Contains(strings.ToLower(j.SQL), "undo_log") {
+				return nil
+			}
+			imu.Lock()
+			defer imu.Unlock()
+			seen++
+			if seen == p.LoseAfterDML {
+				return &mm.Action{DropAfter: true}
+			}
+			return nil
+		}
+		defer func() { db.E.Inject = nil }()
+	}
 	for pi, part := range parts {
 		if pi > 0 {
 			db.S.KillAll(nil) // the server closes every connection of the pool while it is idle
@@ -447,6 +468,9 @@ func c16Run(env *c16Env, p *c16Prog, k string) *c16RunResult {
 	}
 	for _, j := range db.E.JournalSince(start) {
 		line := c16Render(j)
+		if j.Injected == "drop-after" {
+			line += " [lost]"
+		}
 		out.Raw = append(out.Raw, fmt.Sprintf("c%d(%s) %s | %s", j.Conn, j.Class, j.Kind, clipStr(line, 200)))
 		// every connection of the process counts; the proxies' metadata lookups are not business traffic
 		if strings.HasPrefix(strings.ToUpper(j.SQL), "SET @VERIF_CLASS") || j.Kind == "INFOSCHEMA" || j.Kind == "SHOW" || strings.EqualFold(j.Table, "undo_log") || strings.Contains(strings.ToLower(j.SQL), " undo_log") || strings.EqualFold(strings.TrimSpace(j.SQL), "SELECT VERSION()") {
@@ -637,6 +661,10 @@ func c16Gen(r *vc.Rand, name string, idx int, insideToo bool) *c16Prog {
 			}
 		}
 	}
+	if p.Mode == "outside" && r.Intn(8) == 0 {
+		p.LoseAfterDML = 1 + r.Intn(3)
+		kinds["connection-lost-after-statement"] = true
+	}
 	p.Steps = steps
 	var ks []string
 	for k := range kinds {
@@ -686,6 +714,15 @@ func c16Judge(r *vc.Run, env *c16Env, p *c16Prog, k string, got, want *c16RunRes
 	}
 	shape := featShape(map[string]string{"mode": p.Mode, "proxy": k, "kinds": p.Feat["kinds"], "dsn": p.Feat["dsn"]})
 	r.Case(shape, map[string]interface{}{"program": p, "proxy": k, "journal_proxy": clipList(got.Journal, 30), "journal_bare": clipList(want.Journal, 30)})
+	if p.LoseAfterDML > 0 {
+		lost := 0
+		for _, l := range got.Raw {
+			if strings.Contains(l, "[lost]") {
+				lost++
+			}
+		}
+		r.Count(fmt.Sprintf("programs with connection-lost-after-statement: fault fired=%v (%s)", lost > 0, k), 1)
+	}
 	viol := func(clause, detail string) {
 		r.Violate(&vc.Violation{Clause: clause, Shape: shape, Features: feat, Detail: detail, Case: p,
 			History: map[string]interface{}{"proxy_steps": got.Res.Steps, "bare_steps": want.Res.Steps, "proxy_journal": got.Raw, "bare_journal": want.Raw, "proxy_returned": got.Res.Returned + " " + got.Res.Err, "coordinator_requests": got.TC}})
